@@ -78,6 +78,8 @@ def union_models(doc):
                 de = Agg('StrEventDe', (bstr(TVALS[ti]),))
                 yield from it.call_trait(ctx.fr, V, 'serde::Deserialize', 'deserialize', [P('StrEventDe')], [de], s2)
             return
+        kidx = [i for i in range(len(KEYS)) if it.feasible(st, doc.ksel[pos] == i)]
+        st.aux['payload_types'] = st.aux.get('payload_types', ()) + ((tuple(kidx), vname),)
         for s2, good in fork_bool(it, st, doc.pok[pos]):
             yield s2, (it.ok(Agg('Payload', (vname, pos))) if good else it.err(de_err('payload', vname)))
 
@@ -160,6 +162,14 @@ def run_union(rep, prog, pid):
                 if m is not None:
                     report_union(rep, pid, cfg, doc, m, f'panic: {rv.msg}')
                 continue
+            # discipline behind C05 (and C01's encodings): the payload of a *listed* variant is decoded straight from the map access with
+            # its declared type -- hence by the wrapped deserializer that rejects / ignores unknown fields -- not through a buffer
+            for kidx, vname in s2.aux.get('payload_types', ()):
+                for ki in kidx:
+                    want = {1: ('i32',), 2: ('Obj',)}.get(ki)
+                    if want is not None and vname not in want and re.sub(r'\d+$', '', vname) not in want:       # Obj1: same-named type of another configuration
+                        rep.structural(f'{pid}:union-payload-buffered', f'{cfg}: the payload of the listed variant {KEYS[ki]!r} is decoded as {vname} instead of its declared type: '
+                                       'it leaves the deserializer the caller chose (unknown-field behaviour, Conjure encodings)', {'cfg': cfg, 'key': KEYS[ki], 'decoded_as': vname}, battery_union_wrapped)
             is_ok = it.variant_of(rv, 'Ok')
             okp = it.payload(rv, 'Ok')
             conds = [is_ok != accept]
@@ -255,6 +265,16 @@ def run(rep, tier):
     rep.assumptions += ['documents arrive as key/value events (JSON text parsing is serde_json); payload decoding is an abstract success/failure per member',
                         'the serde-derive expansion of the generated object ObjD and the hand-written union protocol are executed from MIR; field payloads are abstract tokens (decodes / does not decode)']
     rep.outside += ['every valid Conjure definition: only the IR family of /verif/gen-crates/types', 'objects other than ObjD, aliases, primitives in their encodings (C15, C16, C01 cover the leaves)']
+
+
+def battery_union_wrapped():
+    """native twins: the server rejects and the client ignores an undeclared field beneath a union variant, whichever member comes first"""
+    docs = ['{"type":"obj","obj":{"foo":1,"bogus":2}}', '{"obj":{"foo":1,"bogus":2},"type":"obj"}']
+    out = []
+    for d, r in zip(docs, replay([{'op': 'gen_union', 'doc': d} for d in docs])):
+        if r.get('default_server') != 'err' or r.get('default') != 'Obj':
+            out.append(f'{d}: server {r.get("default_server")!r} (must reject), client {r.get("default")!r} (must ignore the field and yield Obj)')
+    return out
 
 
 def battery_union():
